@@ -1,8 +1,10 @@
 import Refine.Scalar
 
 /-!
-  L4 Geom: geometric kernels of `ref_node.c`, generic over `Scalar`.
-  Operation order is copied from the C so that the `Float` instance is bit-identical.
+  L4 Geom: geometric kernels of `ref_node.c` (and the `vt_m_v` family of `ref_matrix.c/.h`),
+  generic over `Scalar`.  Operation order is copied from the C so that the `Float` instance is
+  bit-identical (tie: `Drivers/Geom.lean` vs `harness/h_geom.c`).
+  Fixed-shape structures only, so the ℝ-side proofs are `simp only [...]; ring`.
 -/
 namespace Refine.Model.Geom
 open Refine
@@ -12,14 +14,399 @@ structure V3 (α : Type) where
   y : α
   z : α
 
+/-- barycentric weight tuples -/
+structure B2 (α : Type) where
+  b0 : α
+  b1 : α
+structure B3 (α : Type) where
+  b0 : α
+  b1 : α
+  b2 : α
+structure B4 (α : Type) where
+  b0 : α
+  b1 : α
+  b2 : α
+  b3 : α
+
+/-- symmetric 3x3 in refine's upper-triangle order `m[0..5] = m11 m12 m13 m22 m23 m33` -/
+structure M6 (α : Type) where
+  m0 : α
+  m1 : α
+  m2 : α
+  m3 : α
+  m4 : α
+  m5 : α
+
+/-- the `REF_STATUS` values these kernels can return -/
+inductive St where
+  | ok | failure | invalid | divZero | implement
+  deriving DecidableEq, Repr
+
+def St.name : St → String
+  | .ok => "ok" | .failure => "failure" | .invalid => "invalid"
+  | .divZero => "div_zero" | .implement => "implement"
+
 variable {α : Type} [Scalar α]
 
-/-- `ref_node_xyz_vol` (ref_node.c) -/
+@[inline] def lit0 : α := Scalar.ofInt 0
+@[inline] def lit1 : α := Scalar.ofInt 1
+@[inline] def lit2 : α := Scalar.ofInt 2
+@[inline] def lit6 : α := Scalar.ofInt 6
+/-- `0.5` -/
+@[inline] def half : α := Scalar.ofDec 5 (-1)
+/-- `1.0e-12` -/
+@[inline] def eps12 : α := Scalar.ofDec 1 (-12)
+/-- `1.0e-13` -/
+@[inline] def eps13 : α := Scalar.ofDec 1 (-13)
+
+def V3.zero : V3 α := ⟨lit0, lit0, lit0⟩
+def V3.sub (a b : V3 α) : V3 α := ⟨a.x -. b.x, a.y -. b.y, a.z -. b.z⟩
+
+/-- `ref_math_dot` macro -/
+def dot (a b : V3 α) : α := a.x *. b.x +. a.y *. b.y +. a.z *. b.z
+
+/-- `ref_math_cross_product` macro -/
+def cross (v0 v1 : V3 α) : V3 α :=
+  ⟨v0.y *. v1.z -. v0.z *. v1.y, v0.z *. v1.x -. v0.x *. v1.z, v0.x *. v1.y -. v0.y *. v1.x⟩
+
+/-- `ref_math_normalize` (ref_math.c): `div_zero` when a component is not divisible by the length,
+    `failure` (the `RAS`) when the normalised vector's squared length is not within 1e-13 of 1.
+    The vector is returned as the C leaves it in place. -/
+def normalize (v : V3 α) : St × V3 α :=
+  let length := Scalar.sqrt (dot v v)
+  if !(Scalar.divisible v.x length) || !(Scalar.divisible v.y length) || !(Scalar.divisible v.z length) then
+    (St.divZero, v)
+  else
+    let n : V3 α := ⟨v.x /. length, v.y /. length, v.z /. length⟩
+    let l2 := dot n n
+    if Scalar.cabs (l2 -. lit1) <. eps13 then (St.ok, n) else (St.failure, n)
+
+/-- the 3x3 determinant shared by `ref_node_xyz_vol`, `ref_node_tet_vol`, `ref_node_bary4`:
+    `m11 - m12 + m13` -/
+def tetDet (a b c d : V3 α) : α :=
+  let m11 := (a.x -. d.x) *. ((b.y -. d.y) *. (c.z -. d.z) -. (c.y -. d.y) *. (b.z -. d.z))
+  let m12 := (a.y -. d.y) *. ((b.x -. d.x) *. (c.z -. d.z) -. (c.x -. d.x) *. (b.z -. d.z))
+  let m13 := (a.z -. d.z) *. ((b.x -. d.x) *. (c.y -. d.y) -. (c.x -. d.x) *. (b.y -. d.y))
+  m11 -. m12 +. m13
+
+/-- `ref_node_xyz_vol` / `ref_node_tet_vol` (ref_node.c): `-det / 6.0` -/
 def tetVol (a b c d : V3 α) : α :=
   let m11 := (a.x -. d.x) *. ((b.y -. d.y) *. (c.z -. d.z) -. (c.y -. d.y) *. (b.z -. d.z))
   let m12 := (a.y -. d.y) *. ((b.x -. d.x) *. (c.z -. d.z) -. (c.x -. d.x) *. (b.z -. d.z))
   let m13 := (a.z -. d.z) *. ((b.x -. d.x) *. (c.y -. d.y) -. (c.x -. d.x) *. (b.y -. d.y))
   let det := m11 -. m12 +. m13
   (-. det) /. (Scalar.ofInt 6)
+
+/-- `ref_node_tet_dvol_dnode0`: volume and its derivative with respect to node 0 -/
+def tetDvolDnode0 (a b c d : V3 α) : α × V3 α :=
+  (tetVol a b c d,
+   ⟨(-. ((b.y -. d.y) *. (c.z -. d.z) -. (c.y -. d.y) *. (b.z -. d.z))) /. lit6,
+    ((b.x -. d.x) *. (c.z -. d.z) -. (c.x -. d.x) *. (b.z -. d.z)) /. lit6,
+    (-. ((b.x -. d.x) *. (c.y -. d.y) -. (c.x -. d.x) *. (b.y -. d.y))) /. lit6⟩)
+
+/-- `ref_node_xyz_normal` / `ref_node_tri_normal`: un-normalised `(x1-x0) × (x2-x0)` -/
+def triNormal (x0 x1 x2 : V3 α) : V3 α :=
+  cross (V3.sub x1 x0) (V3.sub x2 x0)
+
+/-- `ref_node_tri_area`: `0.5 * sqrt(n·n)` -/
+def triArea (x0 x1 x2 : V3 α) : α :=
+  let n := triNormal x0 x1 x2
+  half *. Scalar.sqrt (dot n n)
+
+/-- `ref_node_tri_twod_orientation`: `normal[2] > 0.0` -/
+def triTwodOrientation (x0 x1 x2 : V3 α) : Bool :=
+  lit0 <. (triNormal x0 x1 x2).z
+
+/-- `ref_node_tri_darea_dnode0` -/
+def triDareaDnode0 (x0 x1 x2 : V3 α) : α × V3 α :=
+  let v0 := V3.sub x1 x0
+  let v1 := V3.sub x2 x0
+  let normx := v0.y *. v1.z -. v0.z *. v1.y
+  let dnx : V3 α := ⟨lit0, (-. v1.z) +. v0.z, (-. v0.y) +. v1.y⟩
+  let normy := v0.z *. v1.x -. v0.x *. v1.z
+  let dny : V3 α := ⟨(-. v0.z) +. v1.z, lit0, (-. v1.x) +. v0.x⟩
+  let normz := v0.x *. v1.y -. v0.y *. v1.x
+  let dnz : V3 α := ⟨(-. v1.y) +. v0.y, (-. v0.x) +. v1.x, lit0⟩
+  let s := normx *. normx +. normy *. normy +. normz *. normz
+  let area := half *. Scalar.sqrt s
+  let c := (half *. half) /. Scalar.sqrt s
+  let d (ax ay az : α) : α := c *. (lit2 *. normx *. ax +. lit2 *. normy *. ay +. lit2 *. normz *. az)
+  (area, ⟨d dnx.x dny.x dnz.x, d dnx.y dny.y dnz.y, d dnx.z dny.z dnz.z⟩)
+
+/-- `ref_node_bary4`: un-normalised weights are the four sub-determinants, then divided by their
+    sum if every quotient passes `ref_math_divisible`; otherwise `-1` at the smallest, `div_zero` -/
+def bary4 (a b c d p : V3 α) : St × B4 α :=
+  let b0 := tetDet p b c d
+  let b1 := tetDet a p c d
+  let b2 := tetDet a b p d
+  let b3 := tetDet a b c p
+  let total := b0 +. b1 +. b2 +. b3
+  if Scalar.divisible b0 total && Scalar.divisible b1 total && Scalar.divisible b2 total &&
+     Scalar.divisible b3 total then
+    (St.ok, ⟨b0 /. total, b1 /. total, b2 /. total, b3 /. total⟩)
+  else
+    let m1 : α := Scalar.ofInt (-1)
+    -- smallest = 0; for i in 1..3: if bary[i] < bary[smallest] then smallest = i
+    let s1 : Nat × α := if b1 <. b0 then (1, b1) else (0, b0)
+    let s2 : Nat × α := if b2 <. s1.2 then (2, b2) else s1
+    let s3 : Nat × α := if b3 <. s2.2 then (3, b3) else s2
+    let pick (i : Nat) : α := if s3.1 == i then m1 else lit0
+    (St.divZero, ⟨pick 0, pick 1, pick 2, pick 3⟩)
+
+/-- `ref_node_bary3`: z-components of the three sub-triangle normals (2-D) -/
+def bary3 (x0 x1 x2 p : V3 α) : St × B3 α :=
+  let b0 := (triNormal p x1 x2).z
+  let b1 := (triNormal x0 p x2).z
+  let b2 := (triNormal x0 x1 p).z
+  let total := b0 +. b1 +. b2
+  if Scalar.divisible b0 total && Scalar.divisible b1 total && Scalar.divisible b2 total then
+    (St.ok, ⟨b0 /. total, b1 /. total, b2 /. total⟩)
+  else
+    (St.divZero, ⟨lit0, lit0, lit0⟩)
+
+/-- the shifted query point of `ref_node_bary3d`: `xyz - total_normal * ((xyz-xyz0)·total_normal)`
+    (the normal is **not** normalised in the C; see `bary3d_raw_shift` in Props/C15) -/
+def bary3dPoint (x0 x1 x2 p : V3 α) : V3 α :=
+  let tn := triNormal x0 x1 x2
+  let q := V3.sub p x0
+  let total := dot q tn
+  (⟨(q.x -. tn.x *. total) +. x0.x, (q.y -. tn.y *. total) +. x0.y, (q.z -. tn.z *. total) +. x0.z⟩ : V3 α)
+
+/-- un-normalised `ref_node_bary3d` weights for an already shifted point `pp` -/
+def bary3dRaw (x0 x1 x2 pp : V3 α) : B3 α :=
+  let tn := triNormal x0 x1 x2
+  ⟨dot (triNormal pp x1 x2) tn, dot (triNormal x0 pp x2) tn, dot (triNormal x0 x1 pp) tn⟩
+
+/-- `ref_node_bary3d` -/
+def bary3d (x0 x1 x2 p : V3 α) : St × B3 α :=
+  let r := bary3dRaw x0 x1 x2 (bary3dPoint x0 x1 x2 p)
+  let total := r.b0 +. r.b1 +. r.b2
+  if Scalar.divisible r.b0 total && Scalar.divisible r.b1 total && Scalar.divisible r.b2 total then
+    (St.ok, ⟨r.b0 /. total, r.b1 /. total, r.b2 /. total⟩)
+  else
+    (St.divZero, ⟨lit0, lit0, lit0⟩)
+
+/-- `ref_node_clip_bary4`: `failure` for a non-finite input (the leading `RAS`), clip at zero,
+    renormalise; `div_zero` branch returns the unit vector of the largest clipped weight -/
+def clipBary4 (o : B4 α) : St × B4 α :=
+  if !(Scalar.isFinite o.b0) || !(Scalar.isFinite o.b1) || !(Scalar.isFinite o.b2) || !(Scalar.isFinite o.b3) then
+    (St.failure, o)
+  else
+    let b0 := Scalar.cmax lit0 o.b0
+    let b1 := Scalar.cmax lit0 o.b1
+    let b2 := Scalar.cmax lit0 o.b2
+    let b3 := Scalar.cmax lit0 o.b3
+    let total := b0 +. b1 +. b2 +. b3
+    if Scalar.divisible b0 total && Scalar.divisible b1 total && Scalar.divisible b2 total &&
+       Scalar.divisible b3 total then
+      let r : B4 α := ⟨b0 /. total, b1 /. total, b2 /. total, b3 /. total⟩
+      if !(lit0 <=. r.b0) || !(lit0 <=. r.b1) || !(lit0 <=. r.b2) || !(lit0 <=. r.b3) then (St.failure, r)
+      else if !(Scalar.isFinite r.b0) || !(Scalar.isFinite r.b1) || !(Scalar.isFinite r.b2) ||
+              !(Scalar.isFinite r.b3) then (St.failure, r)
+      else (St.ok, r)
+    else
+      let s1 : Nat × α := if b0 <. b1 then (1, b1) else (0, b0)
+      let s2 : Nat × α := if s1.2 <. b2 then (2, b2) else s1
+      let s3 : Nat × α := if s2.2 <. b3 then (3, b3) else s2
+      let pick (i : Nat) : α := if s3.1 == i then lit1 else lit0
+      (St.divZero, ⟨pick 0, pick 1, pick 2, pick 3⟩)
+
+/-- `ref_node_clip_bary3` (no finiteness assertions in the C) -/
+def clipBary3 (o : B3 α) : St × B3 α :=
+  let b0 := Scalar.cmax lit0 o.b0
+  let b1 := Scalar.cmax lit0 o.b1
+  let b2 := Scalar.cmax lit0 o.b2
+  let total := b0 +. b1 +. b2
+  if Scalar.divisible b0 total && Scalar.divisible b1 total && Scalar.divisible b2 total then
+    let r : B3 α := ⟨b0 /. total, b1 /. total, b2 /. total⟩
+    if !(lit0 <=. r.b0) || !(lit0 <=. r.b1) || !(lit0 <=. r.b2) then (St.failure, r) else (St.ok, r)
+  else
+    let s1 : Nat × α := if b0 <. b1 then (1, b1) else (0, b0)
+    let s2 : Nat × α := if s1.2 <. b2 then (2, b2) else s1
+    let pick (i : Nat) : α := if s2.1 == i then lit1 else lit0
+    (St.divZero, ⟨pick 0, pick 1, pick 2⟩)
+
+/-- `ref_node_clip_bary2` -/
+def clipBary2 (o : B2 α) : St × B2 α :=
+  let b0 := Scalar.cmax lit0 o.b0
+  let b1 := Scalar.cmax lit0 o.b1
+  let total := b0 +. b1
+  if Scalar.divisible b0 total && Scalar.divisible b1 total then
+    let r : B2 α := ⟨b0 /. total, b1 /. total⟩
+    if !(lit0 <=. r.b0) || !(lit0 <=. r.b1) then (St.failure, r) else (St.ok, r)
+  else
+    let s1 : Nat × α := if b0 <. b1 then (1, b1) else (0, b0)
+    let pick (i : Nat) : α := if s1.1 == i then lit1 else lit0
+    (St.divZero, ⟨pick 0, pick 1⟩)
+
+/-- `ref_node_xyz_grad` / `ref_node_tet_grad_nodes`: gradient of the linear interpolant of the
+    nodal values `s0..s3` on the tet `x0..x3` -/
+def tetGradNodes (x0 x1 x2 x3 : V3 α) (s0 s1 s2 s3 : α) : St × V3 α :=
+  let vol := tetVol x0 x1 x2 x3 *. (Scalar.ofInt (-6))
+  let n1 := triNormal x0 x3 x2
+  let n2 := triNormal x0 x1 x3
+  let n3 := triNormal x0 x2 x1
+  let g0 := (s1 -. s0) *. n1.x +. (s2 -. s0) *. n2.x +. (s3 -. s0) *. n3.x
+  let g1 := (s1 -. s0) *. n1.y +. (s2 -. s0) *. n2.y +. (s3 -. s0) *. n3.y
+  let g2 := (s1 -. s0) *. n1.z +. (s2 -. s0) *. n2.z +. (s3 -. s0) *. n3.z
+  if Scalar.divisible g0 vol && Scalar.divisible g1 vol && Scalar.divisible g2 vol then
+    (St.ok, ⟨g0 /. vol, g1 /. vol, g2 /. vol⟩)
+  else
+    (St.divZero, V3.zero)
+
+/-- `ref_node_tri_grad_nodes`: in-plane gradient of the linear interpolant on a triangle, built
+    from sqrt-normalised altitude directions.  Early `RSS` returns leave the zeroed gradient. -/
+def triGradNodes (x0 x1 x2 : V3 α) (s0 s1 s2 : α) : St × V3 α :=
+  let area2 := triArea x0 x1 x2 *. lit2
+  let edge01 := V3.sub x1 x0
+  let edge02 := V3.sub x2 x0
+  match normalize edge01 with
+  | (St.ok, norm01) =>
+    match normalize edge02 with
+    | (St.ok, norm02) =>
+      let dot1 := dot edge01 norm02
+      let side1 := Scalar.sqrt (dot edge02 edge02)
+      match normalize (⟨edge01.x -. dot1 *. norm02.x, edge01.y -. dot1 *. norm02.y,
+                        edge01.z -. dot1 *. norm02.z⟩ : V3 α) with
+      | (St.ok, u1) =>
+        let grad1 : V3 α := ⟨u1.x *. side1, u1.y *. side1, u1.z *. side1⟩
+        let dot2 := dot edge02 norm01
+        let side2 := Scalar.sqrt (dot edge01 edge01)
+        match normalize (⟨edge02.x -. dot2 *. norm01.x, edge02.y -. dot2 *. norm01.y,
+                          edge02.z -. dot2 *. norm01.z⟩ : V3 α) with
+        | (St.ok, u2) =>
+          let grad2 : V3 α := ⟨u2.x *. side2, u2.y *. side2, u2.z *. side2⟩
+          let g0 := (s1 -. s0) *. grad1.x +. (s2 -. s0) *. grad2.x
+          let g1 := (s1 -. s0) *. grad1.y +. (s2 -. s0) *. grad2.y
+          let g2 := (s1 -. s0) *. grad1.z +. (s2 -. s0) *. grad2.z
+          if Scalar.divisible g0 area2 && Scalar.divisible g1 area2 && Scalar.divisible g2 area2 then
+            (St.ok, ⟨g0 /. area2, g1 /. area2, g2 /. area2⟩)
+          else
+            (St.divZero, V3.zero)
+        | (st, _) => (st, V3.zero)
+      | (st, _) => (st, V3.zero)
+    | (st, _) => (st, V3.zero)
+  | (st, _) => (st, V3.zero)
+
+/-- `ref_matrix_vt_m_v` macro -/
+def vtMv (m : M6 α) (v : V3 α) : α :=
+  v.x *. (m.m0 *. v.x +. m.m1 *. v.y +. m.m2 *. v.z) +.
+  v.y *. (m.m1 *. v.x +. m.m3 *. v.y +. m.m4 *. v.z) +.
+  v.z *. (m.m2 *. v.x +. m.m4 *. v.y +. m.m5 *. v.z)
+
+/-- `ref_matrix_sqrt_vt_m_v` macro -/
+def sqrtVtMv (m : M6 α) (v : V3 α) : α := Scalar.sqrt (vtMv m v)
+
+/-- `ref_matrix_vt_m_v_deriv` -/
+def vtMvDeriv (m : M6 α) (v : V3 α) : α × V3 α :=
+  (vtMv m v,
+   ⟨(m.m0 *. v.x +. m.m1 *. v.y +. m.m2 *. v.z) +. v.x *. m.m0 +. v.y *. m.m1 +. v.z *. m.m2,
+    (m.m1 *. v.x +. m.m3 *. v.y +. m.m4 *. v.z) +. v.x *. m.m1 +. v.y *. m.m3 +. v.z *. m.m4,
+    (m.m2 *. v.x +. m.m4 *. v.y +. m.m5 *. v.z) +. v.x *. m.m2 +. v.y *. m.m4 +. v.z *. m.m5⟩)
+
+/-- `ref_matrix_sqrt_vt_m_v_deriv` -/
+def sqrtVtMvDeriv (m : M6 α) (v : V3 α) : α × V3 α :=
+  let f := Scalar.sqrt (vtMv m v)
+  (f,
+   ⟨(half /. f) *. (v.x *. m.m0 +. (m.m0 *. v.x +. m.m1 *. v.y +. m.m2 *. v.z) +. v.y *. m.m1 +. v.z *. m.m2),
+    (half /. f) *. (v.x *. m.m1 +. v.y *. m.m3 +. (m.m1 *. v.x +. m.m3 *. v.y +. m.m4 *. v.z) +. v.z *. m.m4),
+    (half /. f) *. (v.x *. m.m2 +. v.y *. m.m4 +. v.z *. m.m5 +. (m.m2 *. v.x +. m.m4 *. v.y +. m.m5 *. v.z))⟩)
+
+/-- the degenerate-edge guard shared by `ref_node_ratio*`: some component of the direction is not
+    divisible by the Euclidean length -/
+def ratioDegenerate (direction : V3 α) : Bool :=
+  let length := Scalar.sqrt (dot direction direction)
+  !(Scalar.divisible direction.x length) || !(Scalar.divisible direction.y length) ||
+  !(Scalar.divisible direction.z length)
+
+/-- `ref_node_ratio`, `REF_NODE_RATIO_GEOMETRIC` branch: edge length in the metric, from the two
+    end-point lengths `ratio0`, `ratio1` -/
+def ratioGeometric (x0 x1 : V3 α) (m0 m1 : M6 α) : α :=
+  let direction := V3.sub x1 x0
+  if ratioDegenerate direction then lit0 else
+  let ratio0 := sqrtVtMv m0 direction
+  let ratio1 := sqrtVtMv m1 direction
+  if ratio0 <. eps12 || ratio1 <. eps12 then Scalar.cmin ratio0 ratio1 else
+  let rmin := Scalar.cmin ratio0 ratio1
+  let rmax := Scalar.cmax ratio0 ratio1
+  let r := rmin /. rmax
+  if Scalar.cabs (r -. lit1) <. eps12 then half *. (ratio0 +. ratio1)
+  else rmin *. (r -. lit1) /. (r *. Scalar.log r)
+
+/-- `ref_node_ratio_node0` -/
+def ratioNode0 (x0 x1 : V3 α) (m0 : M6 α) : α :=
+  let direction := V3.sub x1 x0
+  if ratioDegenerate direction then lit0 else sqrtVtMv m0 direction
+
+/-- `ref_node_ratio_log_quadrature` after the metric at the mid-point has been formed:
+    `mmid = exp_m(0.5*log m0 + 0.5*log m1)` is an input here (`ref_matrix_exp_m` belongs to the
+    matrix package).  One Gauss point: `*ratio = 0.0; *ratio += 0.5 * 2.0 * sqrt_vt_m_v`. -/
+def ratioQuadratureMid (x0 x1 : V3 α) (mmid : M6 α) : α :=
+  let direction := V3.sub x1 x0
+  if ratioDegenerate direction then lit0 else
+  lit0 +. (half *. lit2) *. sqrtVtMv mmid direction
+
+/-- the log-metric mix of the single quadrature point: `w1 = 0.5*0.0+0.5; w0 = 1.0-w1` -/
+def quadratureMix (l0 l1 : M6 α) : M6 α :=
+  let w1 : α := half *. lit0 +. half
+  let w0 : α := lit1 -. w1
+  ⟨w0 *. l0.m0 +. w1 *. l1.m0, w0 *. l0.m1 +. w1 *. l1.m1, w0 *. l0.m2 +. w1 *. l1.m2,
+   w0 *. l0.m3 +. w1 *. l1.m3, w0 *. l0.m4 +. w1 *. l1.m4, w0 *. l0.m5 +. w1 *. l1.m5⟩
+
+/-- `ref_node_dratio_dnode0_quadrature` after `mmid` has been formed -/
+def dratioQuadratureMid (x0 x1 : V3 α) (mmid : M6 α) : α × V3 α :=
+  let direction := V3.sub x1 x0
+  if ratioDegenerate direction then (lit0, V3.zero) else
+  let fd := sqrtVtMvDeriv mmid direction
+  let c : α := half *. lit2
+  (lit0 +. c *. fd.1, ⟨lit0 -. c *. fd.2.x, lit0 -. c *. fd.2.y, lit0 -. c *. fd.2.z⟩)
+
+/-- `ref_node_dratio_dnode0`, geometric branch -/
+def dratioGeometric (x0 x1 : V3 α) (m0 m1 : M6 α) : α × V3 α :=
+  let direction := V3.sub x1 x0
+  if ratioDegenerate direction then (lit0, V3.zero) else
+  let fd0 := sqrtVtMvDeriv m0 direction
+  let fd1 := sqrtVtMvDeriv m1 direction
+  let ratio0 := fd0.1
+  let ratio1 := fd1.1
+  let d0 : V3 α := ⟨-. fd0.2.x, -. fd0.2.y, -. fd0.2.z⟩
+  let d1 : V3 α := ⟨-. fd1.2.x, -. fd1.2.y, -. fd1.2.z⟩
+  if ratio0 <. eps12 || ratio1 <. eps12 then
+    (if ratio0 <. ratio1 then (ratio0, d0) else (ratio1, d1))
+  else
+    let lo : α × V3 α := if ratio0 <. ratio1 then (ratio0, d0) else (ratio1, d1)
+    let hi : α × V3 α := if ratio0 <. ratio1 then (ratio1, d1) else (ratio0, d0)
+    let rmin := lo.1
+    let rmax := hi.1
+    let r := rmin /. rmax
+    let dr (dmin dmax : α) : α := (dmin *. rmax -. rmin *. dmax) /. rmax /. rmax
+    let drx := dr lo.2.x hi.2.x
+    let dry := dr lo.2.y hi.2.y
+    let drz := dr lo.2.z hi.2.z
+    if Scalar.cabs (r -. lit1) <. eps12 then
+      (half *. (rmin +. rmax),
+       ⟨half *. (lo.2.x +. hi.2.x), half *. (lo.2.y +. hi.2.y), half *. (lo.2.z +. hi.2.z)⟩)
+    else
+      let rlogr := r *. Scalar.log r
+      let dd (dri dmin : α) : α :=
+        ((rmin *. dri +. dmin *. (r -. lit1)) *. rlogr -.
+          rmin *. (r -. lit1) *. (r *. lit1 /. r *. dri +. dri *. Scalar.log r)) /. rlogr /. rlogr
+      (rmin *. (r -. lit1) /. rlogr, ⟨dd drx lo.2.x, dd dry lo.2.y, dd drz lo.2.z⟩)
+
+/-- coordinate part of `ref_node_interpolate_edge`: `(1.0-w1)*x0 + w1*x1` -/
+def interpolateEdgeXyz (x0 x1 : V3 α) (w1 : α) : V3 α :=
+  let w0 := lit1 -. w1
+  ⟨w0 *. x0.x +. w1 *. x1.x, w0 *. x0.y +. w1 *. x1.y, w0 *. x0.z +. w1 *. x1.z⟩
+
+/-- inner loop of `ref_interp_scalar` for one receptor and one field component: clip the stored
+    barycentric weights (`RSS` on the clip status), then `donor = 0.0; donor += bary[i]*f[i]` over the
+    `nodePer` (3 for a 2-D donor triangle, 4 for a tet) donor nodes, then the `RAS(isfinite)` -/
+def interpScalar (nodePer : Nat) (bary : B4 α) (f : B4 α) : St × α :=
+  match clipBary4 bary with
+  | (St.ok, w) =>
+    let s3 := lit0 +. w.b0 *. f.b0 +. w.b1 *. f.b1 +. w.b2 *. f.b2
+    let s := if nodePer == 3 then s3 else s3 +. w.b3 *. f.b3
+    if Scalar.isFinite s then (St.ok, s) else (St.failure, s)
+  | (st, _) => (st, lit0)
 
 end Refine.Model.Geom
